@@ -1,10 +1,13 @@
 import Driver.Sexp
 import Pcore.Model.Tls
+import Pcore.Model.TlsSmall
 /-!
 Driver ops for C14 (syntax shared with harness/c14):
 
     prog <term>                 run `pcore.Do(term)` on a fresh goroutine, empty schedule (children run after the root ended)
     progs (d0 d1 …) <term>      the same with the scheduling oracle d0 d1 …  (see Model/Tls.lean `yield`)
+    progi (d0 d1 …) <term>      leaf-level interleaving (Model/TlsSmall.lean `runI`): every goroutine is parked before each
+                                leaf operation; choice d resumes runnable goroutine number d mod #runnable
 
     term ::= (obs) | (set k n) | (get k) | (push n) | (deftype a) | (load a) | (panic)
            | (doctx id term…) | (doparent id term…) | (do id term…) | (try id term…) | (doloader term…) | (fork term…) | (go term…) | (seq term…) | (recover term…)
@@ -104,6 +107,10 @@ def exec : List Sexp → String
   | [.atom "progs", s, t] =>
     match schedOf s, progOf t with
     | some sc, some p => render (run .now sc p)
+    | _, _ => "bad-op"
+  | [.atom "progi", s, t] =>
+    match schedOf s, progOf t with
+    | some sc, some p => render (runI sc p).w
     | _, _ => "bad-op"
   | _ => "bad-op"
 
